@@ -12,36 +12,44 @@ TRUSTED_BASE = [
 PRIMS = {
     "sem": {
         "new_lines": ["new sem 0", "new sem 1", "new sem 2"],
-        "quick": {"depth": 6, "random_count": 300, "random_len": 40},
-        "thorough": {"depth": 8, "random_count": 20000, "random_len": 50},
+        "quick": {"depth": 6, "beam": [12, 1, 4], "random_count": 300, "random_len": 40},
+        "thorough": {"depth": 8, "beam": [48, 2, 5], "random_count": 20000, "random_len": 50},
     },
 }
 
 PRIMS["mutex"] = {
     "new_lines": ["new mutex"],
-    "quick": {"depth": 7, "random_count": 4000, "random_len": 40},
-    "thorough": {"depth": 9, "random_count": 60000, "random_len": 50},
+    "quick": {"depth": 7, "beam": [16, 1, 4], "random_count": 4000, "random_len": 40},
+    "thorough": {"depth": 9, "beam": [64, 2, 6], "random_count": 60000, "random_len": 50},
 }
 
 PRIMS["rwlock"] = {
     "new_lines": ["new rwlock"],
-    "quick": {"depth": 6, "random_count": 3000, "random_len": 50},
-    "thorough": {"depth": 8, "random_count": 60000, "random_len": 60},
+    "quick": {"depth": 6, "beam": [16, 1, 5], "random_count": 3000, "random_len": 50},
+    "thorough": {"depth": 8, "beam": [64, 2, 6], "random_count": 60000, "random_len": 60},
 }
 
 PRIMS["once"] = {
     "new_lines": ["new once"],
-    "quick": {"depth": 6, "random_count": 3000, "random_len": 40},
-    "thorough": {"depth": 8, "random_count": 60000, "random_len": 50},
+    "quick": {"depth": 6, "beam": [16, 1, 4], "random_count": 3000, "random_len": 40},
+    "thorough": {"depth": 8, "beam": [64, 2, 6], "random_count": 60000, "random_len": 50},
 }
 
 PRIMS["barrier"] = {
     "new_lines": ["new barrier 0", "new barrier 1", "new barrier 2", "new barrier 3"],
-    "quick": {"depth": 10, "random_count": 3000, "random_len": 40},
-    "thorough": {"depth": 13, "random_count": 60000, "random_len": 60},
+    "quick": {"depth": 10, "beam": [8, 1, 4], "random_count": 3000, "random_len": 40},
+    "thorough": {"depth": 13, "beam": [32, 2, 6], "random_count": 60000, "random_len": 60},
 }
 
 PROPS = {
+    "C17": {
+        "modules": ["ALock.Props.C17"],
+        "prims": ["sem", "mutex", "rwlock", "once", "barrier"],
+        "fields": ["out", "w"],
+        "monitors": ["C17"],
+        "assumptions": ["polls are atomic; a settle re-polls woken futures with the waker they were last polled with and the 0.5 ms starvation test not firing (the theorems allow any waker and either outcome of the test)"],
+        "partial": ["thread interleavings; threads parked in blocking forms"],
+    },
     "C16": {
         "modules": ["ALock.Props.C16"],
         "prims": [],
